@@ -21,3 +21,23 @@ def squawk13(idbits):
     B4 = idbits[11]
     D4 = idbits[12]
     return str(octal(A4, A2, A1)) + str(octal(B4, B2, B1)) + str(octal(C4, C2, C1)) + str(octal(D4, D2, D1))
+
+
+def interrogator_label(rem):
+    """DF11: remainder = (CL << 4) | IC; CL=0 -> II code, CL=1..4 -> SI codes 1..63"""
+    if rem > 79:
+        return "corrupt IC"
+    if rem < 16:
+        return "II" + str(rem)
+    return "SI" + str(rem - 16)
+
+
+def emergency_squawk(msg):
+    from spec import F
+    from vc.api import require
+    require(len(msg) == 28, "112-bit frame")
+    bits = F.hexbits(msg)
+    if F.tc_of(bits) != 28:
+        raise RuntimeError("TC28 expected")
+    me = F.me(bits)
+    return squawk13(me[11:24])
